@@ -61,7 +61,8 @@ fn value_exports(l: &Loaded, m: usize) -> Vec<String> {
     l.prog.scopes[l.prog.modules[m]].value_exports.keys().cloned().collect()
 }
 
-fn compare_modules(label: &str, a: (&str, Option<&str>), b: (&str, Option<&str>), out: &mut Vec<(String, String)>, stats: &mut (u64, u64)) -> bool {
+pub fn compare_modules(prop: &str, sides: (&str, &str), label: &str, a: (&str, Option<&str>), b: (&str, Option<&str>), out: &mut Vec<(String, String)>, stats: &mut (u64, u64)) -> bool {
+    let (sa, sb) = sides;
     let la = match ts::load(a.0, a.1) {
         Ok(l) => l,
         Err(_) => return false, // the SDL route's output is C10's business
@@ -69,7 +70,7 @@ fn compare_modules(label: &str, a: (&str, Option<&str>), b: (&str, Option<&str>)
     let lb = match ts::load(b.0, b.1) {
         Ok(l) => l,
         Err(e) => {
-            out.push((format!("C15|{label}|json-route-output-unreadable"), format!("the SDL route's file parses, the JSON route's does not: {e}")));
+            out.push((format!("{prop}|{label}|{sb}-output-unreadable"), format!("the {sa} file parses, the {sb} one does not: {e}")));
             return true;
         }
     };
@@ -83,8 +84,8 @@ fn compare_modules(label: &str, a: (&str, Option<&str>), b: (&str, Option<&str>)
     for (k, va) in &da {
         stats.0 += 1;
         match db.get(k) {
-            None => out.push((format!("C15|{label}|alias-missing-in-json-route|{}", alias_class(k)), format!("{k} = {} exists with the SDL schema only", clip(va, 200)))),
-            Some(vb) if va != vb => out.push((format!("C15|{label}|alias-denotation-differs|{}", alias_class(k)), format!("{k}: SDL route `{}`, JSON route `{}`", clip(va, 400), clip(vb, 400)))),
+            None => out.push((format!("{prop}|{label}|alias-missing-in-{sb}|{}", alias_class(k)), format!("{k} = {} exists in the {sa} output only", clip(va, 200)))),
+            Some(vb) if va != vb => out.push((format!("{prop}|{label}|alias-denotation-differs|{}", alias_class(k)), format!("{k}: {sa} `{}`, {sb} `{}`", clip(va, 400), clip(vb, 400)))),
             _ => stats.1 += 1,
         }
     }
@@ -94,13 +95,13 @@ fn compare_modules(label: &str, a: (&str, Option<&str>), b: (&str, Option<&str>)
             if META.contains(&last.trim_start_matches("<local>")) {
                 continue; // the introspection meta types are part of every schema; SDL files never spell them
             }
-            out.push((format!("C15|{label}|alias-only-in-json-route|{}", alias_class(k)), format!("{k} = {} exists with the JSON schema only", clip(vb, 200))));
+            out.push((format!("{prop}|{label}|alias-only-in-{sb}|{}", alias_class(k)), format!("{k} = {} exists in the {sb} output only", clip(vb, 200))));
         }
     }
     let (va, mut vb) = (value_exports(&la, ma), value_exports(&lb, mb));
     vb.retain(|n| va.contains(n) || !META.contains(&n.as_str()));
     if va != vb {
-        out.push((format!("C15|{label}|value-exports-differ"), format!("SDL route {va:?}, JSON route {vb:?}")));
+        out.push((format!("{prop}|{label}|value-exports-differ"), format!("{sa} {va:?}, {sb} {vb:?}")));
     }
     true
 }
@@ -181,7 +182,7 @@ pub fn check_variant(ctx: &Ctx, n: u64, v: &Variant, generate: bool, st: &mut St
                 let schema = v.schema_output.as_ref().map(|s| (read(&da, s), read(&db, s)));
                 if let Some((Some(sa), Some(sb))) = &schema {
                     let mut s2 = (0, 0);
-                    if compare_modules("schema-types", (sa, None), (sb, None), &mut out, &mut s2) {
+                    if compare_modules("C15", ("sdl", "json"), "schema-types", (sa, None), (sb, None), &mut out, &mut s2) {
                         st.modules += 1;
                     }
                     st.aliases += s2.0;
@@ -190,7 +191,7 @@ pub fn check_variant(ctx: &Ctx, n: u64, v: &Variant, generate: bool, st: &mut St
                         match (read(&da, rel), read(&db, rel)) {
                             (Some(oa), Some(ob)) => {
                                 let mut s2 = (0, 0);
-                                if compare_modules(label, (sa, Some(&oa)), (sb, Some(&ob)), &mut out, &mut s2) {
+                                if compare_modules("C15", ("sdl", "json"), label, (sa, Some(&oa)), (sb, Some(&ob)), &mut out, &mut s2) {
                                     st.modules += 1;
                                 }
                                 st.aliases += s2.0;
